@@ -1476,6 +1476,9 @@ class AdapterIndex:
             if length < best_m:
                 # No chance of getting the same or a higher number of matches, so we can stop early
                 break
+            if length > len(sequence):
+                # The sequence is shorter than the indexed strings of this length
+                continue
             affix = self._make_affix(affix, length)
             if "N" in affix:
                 result = self._lookup_with_n(affix)
